@@ -29,7 +29,7 @@ ASSUMPTIONS = [
 TRUSTED = ["modelled not verified: X25519/HPKE/X3DH/HKDF/AEAD/RNG (symbolic), CBOR round trip of TwoPartyPlaintext, KeyManager pre-key lookup"]
 RULE = ("quick: every sequence over {send a, send b, recv a, recv b} of length <= 5 without idle receives, for both bundle kinds and both "
         "session openings, plus 300 random interleavings (length <= 40) with replays of processed messages and some out-of-order "
-        "deliveries; thorough: length <= 7 and 6000 random (length <= 120). non-trivial = a successful receive in both directions "
+        "deliveries; thorough: length <= 7 and 3000 random (length <= 120). non-trivial = a successful receive in both directions "
         "and at least one rejected replay, or (exhaustive part) a successful receive after sends in both directions")
 COQ_SHARD = 150
 
@@ -57,7 +57,7 @@ def gen(tier, rng):
     if tier == "quick":
         maxlen, nrand, rl = 5, 300, 40
     else:
-        maxlen, nrand, rl = 7, 6000, 120
+        maxlen, nrand, rl = 7, 3000, 120
     base = ["sa", "sb", "ra", "rb"]
     for n in range(1, maxlen + 1):
         for evs in itertools.product(base, repeat=n):
